@@ -506,6 +506,39 @@ def run(ctx) -> list[Inst]:
                     copies.add(nm)
             if not orig:
                 continue
+            # the loop has to cover EVERY original node: a local list filled under a condition (`if id(node) not in memo:
+            # new_nodes.append(node)`) leaves the others - nodes that were copied earlier through another reference -
+            # with the empty relations the node copy starts from
+            filtered = None
+            if isinstance(n.iter, ast.Name):
+                pmap = {}
+                for x in ast.walk(f.node):
+                    for ch in ast.iter_child_nodes(x):
+                        pmap[id(ch)] = x
+                for x in own_nodes(f.node):
+                    if isinstance(x, ast.Call) and isinstance(x.func, ast.Attribute) and x.func.attr == 'append' \
+                            and isinstance(x.func.value, ast.Name) and x.func.value.id == n.iter.id:
+                        cur = x
+                        while id(cur) in pmap:
+                            cur = pmap[id(cur)]
+                            if isinstance(cur, ast.If):
+                                filtered = cur
+                                break
+                            if isinstance(cur, (ast.For, ast.While, ast.FunctionDef)):
+                                break
+                if isinstance(n.iter, ast.Name):
+                    for x in own_nodes(f.node):
+                        if isinstance(x, ast.Assign) and len(x.targets) == 1 and isinstance(x.targets[0], ast.Name) \
+                                and x.targets[0].id == n.iter.id and isinstance(x.value, ast.ListComp) and x.value.generators[0].ifs:
+                            filtered = x.value
+            if filtered is not None:
+                test_txt = stmt_text(filtered.test if isinstance(filtered, ast.If) else filtered.generators[0].ifs[0], 60)
+                insts.append(Inst(
+                    RULE, f.short, '(c) the re-link loop covers every node of the original', 'violation',
+                    msg=(f"'for {stmt_text(n.target)} in {n.iter.id}' re-links only the nodes selected by '{test_txt}': a node "
+                         f"that is already in the memo (the graph is copied as part of a bigger object, a node's extras "
+                         f"refer to another node) keeps the empty parents / children / compromised_by of its bare copy"),
+                    file=rel, line=n.lineno, props=PROPS + ('C09',)))
             for b in ast.walk(n):
                 if isinstance(b, ast.Assign) and len(b.targets) == 1 and isinstance(b.targets[0], ast.Attribute):
                     tg = b.targets[0]
